@@ -201,7 +201,7 @@ PROPS = {
                 "compared: result, the listener each connection arrived at and the raw bytes of every connection; non-trivial = at least one connection reached the simulator; distinct by op content",
         "trusted": ["crypto/tls, net, DNS (a TLS dial succeeds only for a syntactically valid host name or IP literal)",
                     "url.Parse rejects ASCII control bytes, so RequestURI()/Host of a parsed URL are CR/LF-free (evaluated on every generated URL through the request comparison)",
-                    "url.Values.Encode as an oracle for the webfinger query"],
+                    "url.Values.Encode as an oracle for the webfinger query (the Lean transcription of SplitN / Values.Encode / QueryEscape that the translated ResolveWebfinger targets is compared with it on every webfinger op: query_is_the_transcribed_encoding)"],
         "assumptions": ["TLS, DNS and socket behaviour are not modelled (partial)"],
         "shrink_budget": 4,
     },
